@@ -56,7 +56,7 @@ def cases(tier, seed):
                         n += 1
                         out.append({'seed': seed * 1000003 + n, 'nlog': nlog, 'nparam': nparam, 'proto': proto,
                                     'mems': mk, 'api': api, 'trigger': trig, 'reporter': reporter, 'sched': pol,
-                                    'line_p': lp, 'S': S, 'resend': rnd.random() < 0.3, 'prefault': n % 3 == 0})
+                                    'line_p': lp, 'S': S, 'resend': rnd.random() < 0.3, 'prefault': n % 3 == 0, 'drain': n % 2 == 1})
     return out
 
 
@@ -75,6 +75,9 @@ def one_run(desc, k, sseed, calibrate=False):
     prof = gen.profile(desc['seed'] // 7, desc['nlog'], desc['nparam'], proto=desc['proto'], mems=_mems(desc['mems']))
     dev = simcf.SimCF(prof)
     spec = simlink.LinkSpec(dev, needs_resending=desc['resend'])
+    spec.deliver_queued_after_close = bool(desc.get('drain'))
+    if desc.get('drain') and (desc['seed'] // 2) % 2 == 0:
+        spec.latency = 0.0       # answers are in the driver's queue the moment the request has gone out
     uri = 'sim://c02'
     simlink.SIMS[uri] = spec
     exp_log, exp_param = oracles.expected_log(dev), oracles.expected_param(dev)
@@ -507,6 +510,7 @@ def run(desc, ctx):
                 ctx.count('mon.line_preempted_runs')
                 ctx.count('mon.line_points', s.line_points)
             ctx.count('mon.sched_steps', s.steps)
+            ctx.count('mon.packets_handed_out_after_the_link_was_closed', getattr(res['spec'], 'rx_after_close', 0))
             ctx.count('mon.thread_switches', s.switches)
             if first and res['fired']:
                 first = False
